@@ -225,7 +225,7 @@ theorem gen_first_call :
       [("absolute", "_elements"), ("shapes_to_paths", "_elements"), ("expand_shorthand", "_elements"),
        ("apply_style_attributes", "_update_etree"), ("resolve_use", "_update_etree"), ("simplify", "_update_etree"),
        ("clip_to_viewbox", "_update_etree"), ("evenodd_to_nonzero_winding", "_elements"), ("round_floats", "shapes"),
-       ("remove_empty_subpaths", "shapes"), ("remove_unpainted_shapes", "_update_etree"),
+       ("remove_empty_subpaths", "_elements"), ("remove_unpainted_shapes", "_update_etree"),
        ("remove_nonsvg_content", "_update_etree"), ("remove_processing_instructions", "_update_etree"),
        ("remove_anonymous_symbols", "_update_etree"), ("remove_title_meta_desc", "_update_etree"),
        ("set_attributes", "_update_etree"), ("remove_attributes", "_update_etree"), ("normalize_opacity", "shapes"),
